@@ -12,7 +12,12 @@ use crate::{
     memsim::{Algo, MemCfg, MemOp, MemSim, Reason, Ret, Step},
 };
 
-const MAX_CANDS: usize = 16;
+const MAX_CANDS: usize = 64;
+
+thread_local! {
+    /// set when a candidate set had to be cut: from then on "no candidate explains the observation" proves nothing
+    static TRUNCATED: std::cell::Cell<bool> = const { std::cell::Cell::new(false) };
+}
 
 fn same_state(a: &RefCache, b: &RefCache) -> bool {
     a.cap == b.cap && a.usage == b.usage && a.resident == b.resident && a.st == b.st && a.recs == b.recs
@@ -25,6 +30,7 @@ fn dedupe(cands: Vec<RefCache>) -> Vec<RefCache> {
             out.push(c);
         }
         if out.len() >= MAX_CANDS {
+            TRUNCATED.with(|t| t.set(true));
             break;
         }
     }
@@ -212,7 +218,14 @@ pub fn judge_c14(case: &MemCase) -> C14Outcome {
 }
 
 pub fn exec_c14(case: &MemCase) -> CaseReport {
-    let out = judge_c14(case);
+    TRUNCATED.with(|t| t.set(false));
+    let mut out = judge_c14(case);
+    // The reference model is set-valued; when a history forks more often than the candidate set can hold, candidates
+    // were dropped and a later disagreement may be the dropped candidate's: the case is outside what this model decides
+    let truncated = TRUNCATED.with(|t| t.get());
+    if truncated && out.failure.is_some() {
+        out.failure = None;
+    }
     let b = &out.branches;
     let mut classes: Vec<&'static str> = vec![case.cfg.algo.name()];
     macro_rules! cls {
@@ -242,11 +255,12 @@ pub fn exec_c14(case: &MemCase) -> CaseReport {
     cls!(b.lfu_halve > 0, "lfu-sketch-halved");
     cls!(b.open_steps > 0, "open-step-forked");
     cls!(out.max_cands > 1, "multiple-candidates");
+    cls!(truncated, "candidate-set-truncated(out-of-model)");
     let nontrivial = out.evictions > 0 && classes.len() > 1;
     CaseReport {
         nontrivial,
         classes,
-        discarded: false,
+        discarded: truncated,
         failure: out.failure,
         tolerated: vec![],
     }
